@@ -20,6 +20,9 @@ LIMITS = {
     "dec_hi": (0, 1.7, 0.6),
     "dec_hi2": (0, 100.2, 32.02),
     "dec_lo": (0.1, 50, 0.39),
+    # the caller hands float32 / int64 arrays to the constructor: tracking must still be double precision
+    "f32": (0.1, 200.3, 100.1),
+    "i64": (0, 100, 7),
 }
 assert 0.6 + (1.7 - 0.6) > 1.7 and 32.02 + (100.2 - 32.02) > 100.2 and 0.39 - (0.39 - 0.1) < 0.1
 _MSG = re.compile(r'"(.+?)"\.([A-Z]\d+):')
@@ -72,7 +75,12 @@ class Harness(cm.BaseA):
             out.append(
                 {
                     "limits": name,
-                    "labware": [plate("A", 2, 1, mn, mx, init), trough("S", 2, 2, mn, mx, [init, init])],
+                    "labware": [plate("A", 2, 1, mn, mx, init), trough("S", 2, 2, mn, mx, [init, init])]
+                    if name not in ("f32", "i64")
+                    else [
+                        dict(plate("A", 2, 1, mn, mx, [[init], [init]]), np="float32" if name == "f32" else "int64"),
+                        dict(trough("S", 2, 2, mn, mx, [init, init]), np="float32" if name == "f32" else "int64"),
+                    ],
                     "worklists": {
                         "w": {"cls": "EvoWorklist", "max_volume": 4e6, "auto_split": True},
                         "ws": {"cls": "FluentWorklist", "max_volume": max(mx, 1e-3) / 2.5, "auto_split": True},
@@ -315,7 +323,7 @@ class Harness(cm.BaseA):
             m = _MSG.search(str(exc))
             if m and must is None and op in ("add", "remove") and len(ref_list(ev[2])) == 1:
                 cell = geos[m.group(1)].real(m.group(2))
-                if pre[m.group(1)][cell].hex() != post[m.group(1)][cell].hex():
+                if float(pre[m.group(1)][cell]).hex() != float(post[m.group(1)][cell]).hex():
                     V.append(("C02/offending-well-changed", f"{m.group(1)}.{m.group(2)}: {pre[m.group(1)][cell]!r} -> {post[m.group(1)][cell]!r}"))
         at_limit = out == "ok" and any(np.any((post[n] != pre[n]) & ((post[n] == mx) | (post[n] == mn))) for n in post)
         if volexc or at_limit:
